@@ -125,7 +125,7 @@ class Machine:
         return self.pool[i % len(self.pool)] if self.pool else None
 
     def invariant(self):
-        quantities = list(self.db.quantities_cache.values()) + self.pool
+        quantities = list(getattr(self.db, "quantities_cache", {}).values()) + self.pool
         for q in quantities:
             s = snap(q)
             self.ctx.ev()
@@ -136,7 +136,7 @@ class Machine:
                 diff = [i for i, (a, b) in enumerate(zip(old[1], s)) if a != b]
                 self.fail("quantity_changed_after_creation", "quantity observed as %r is now %r (fields %r differ)" % (old[1], s, diff))
         # every cache key still maps to a quantity consistent with the key
-        for key, q in self.db.quantities_cache.items():
+        for key, q in getattr(self.db, "quantities_cache", {}).items():
             if len(key) == 3 and isinstance(key[1], str) and not isinstance(key[0], tuple):
                 cat, unit, cap = key
                 if q.IsDerived():
@@ -416,11 +416,9 @@ def run_case(ctx, ops):
     # with its caches emptied (a fresh 24 ms build per example makes shrinking very slow); if the
     # registry fingerprint ever changes the database is rebuilt.
     db = _DB.get("db")
-    if db is None or _fingerprint(db) != _DB["fp"]:
+    if db is None or _fingerprint(db) != _DB["fp"] or not env.clear_caches(db):
         db = _DB["db"] = env.new_db("posc")
         _DB["fp"] = _fingerprint(db)
-    db.quantities_cache.clear()
-    db._category_unit_valid.clear()
     with env.pushed(db):
         m = Machine(ctx, db, {"ops": ops})
         m.run(ops)
